@@ -1214,6 +1214,24 @@ class PSBTIn:
                         )
         else:
             # non-witness input
+            if self.witness_script and script_pubkey:
+                # a WitnessScript can still be attached when the output is only known
+                # through the previous transaction: it has to be the one committed to
+                if script_pubkey and script_pubkey.is_p2wsh():
+                    s256 = script_pubkey.commands[1]
+                elif self.redeem_script and self.redeem_script.is_p2wsh():
+                    s256 = self.redeem_script.commands[1]
+                else:
+                    raise ValueError(
+                        "WitnessScript provided for non-p2wsh ScriptPubKey"
+                    )
+                if self.witness_script.sha256() != s256:
+                    raise ValueError(
+                        "WitnessScript sha256 and output sha256 do not match"
+                    )
+                for sec in self.named_pubs.keys():
+                    if sec not in self.witness_script.commands:
+                        raise ValueError(f"pubkey is not in WitnessScript: {self}")
             if self.redeem_script:
                 if not script_pubkey.is_p2sh():
                     raise ValueError("RedeemScript defined for non-p2sh ScriptPubKey")
